@@ -6,3 +6,11 @@ BASE_NOTE = ("Trusted: python ast; the frozen specification tables in the rule m
 claim("C04", "who-may-write + guard truth tables + abstract interpretation of verdict writers + fold-shape check",
       "Static: every store to the validity verdict is the literal False outside the initialiser/setter (monotonicity is decided for all inputs), the writer set and each writer's guard equal the documented causes (truth-table equivalence / exhaustive decision tables of Stopper._stop_me and ErrorHandler._handle_if), failed()/valid() alias table, and both run-level aggregations are conjunction folds over the members' csvpath verdict wired to the manifest keys. Does not decide that fail() is reached on the right lines.",
       BASE_NOTE)
+
+claim("C13", "decision tables by abstract interpretation of Matcher.matches/_consider_line/Last/Skipper/Stopper ASTs + who-may-override + ordering",
+      "Static: exhaustive decision tables extracted from the ASTs of Matcher.matches (1-3 components x votes x {none,stop,skip} x memo x AND/OR), CsvPath._consider_line, Last._decide_match, Skipper._skip_me, Stopper._stop_me, Qualified.do_frozen, LineMonitor.is_last_line(_and_blank) and Scanner.is_last (on the state the yacc actions build), each compared with the documented control behaviour; override_frozen overriders, unfreeze/re-freeze pairing, and the stopped test after the yield in CsvPath.next. Decides the control structure for all inputs; not 'last() at most once per run' over arbitrary files.",
+      BASE_NOTE + " The abstract component model (vote x control effect) assumes components influence Matcher.matches only through their vote, csvpath.stopped and matcher.skip.")
+
+claim("C02", "typed-truthiness lint + abstract interpretation of the yacc action ASTs and Scanner.includes/is_last over the bounded scan-part language + LALR(1) check",
+      "Static: no truthiness test on from_line/to_line (0 is a line); Scanner.includes/is_last interpreted on the scanner state produced by the yacc action ASTs for every scan part of the quantifier up to the bound (3 '+' operands, bounds 0..5/6) and compared with the denotation for lines 0..9 — the functions only compare line numbers (checked), so small integers cover all order types; _consider_line decision table (only included, non-blank lines are counted/matched; stop at the scan's last line); PLY grammar LALR(1) conflict-free. The composition of '+' chains is decided only up to the bound.",
+      BASE_NOTE + " The reduction order of the PLY parser is replayed by the checker for the grammar shape it verifies (left-recursive expression/term); PLY itself is trusted.")
